@@ -26,6 +26,11 @@ def le64 (n : Nat) : Bytes := (List.range 8).map fun i => UInt8.ofNat (n / 256 ^
 /-- 64-bit length, most significant byte first (FIPS 180-4 §5.1.1) -/
 def be64 (n : Nat) : Bytes := (le64 n).reverse
 
+/-- value of a big-endian byte string -/
+def beVal (l : Bytes) : Nat := l.foldl (fun acc b => acc * 256 + b.toNat) 0
+/-- value of a little-endian byte string -/
+def leVal (l : Bytes) : Nat := beVal l.reverse
+
 /-- the padded message.  The bit length is taken modulo 2^64 (RFC 1321: "only the low-order 64
 bits"; FIPS 180-4 defines SHA-1 only for lengths < 2^64 bits, where the reduction is the identity). -/
 def pad (enc : Nat → Bytes) (msg : Bytes) : Bytes :=
@@ -180,5 +185,18 @@ def fromHex : Bytes → Option Bytes
     match hexVal hi, hexVal lo, fromHex rest with
     | some h, some l, some r => some (UInt8.ofNat (16 * h + l) :: r)
     | _, _, _ => none
+
+/-! ## key files: hexadecimal text, trailing blanks / line ends ignored -/
+
+/-- space, LF, CR, TAB -/
+def isWs (c : UInt8) : Bool := c == 0x20 || c == 0x0a || c == 0x0d || c == 0x09
+
+/-- `s` without its trailing white space -/
+def rstrip : Bytes → Bytes
+  | [] => []
+  | c :: rest =>
+    match rstrip rest with
+    | [] => if isWs c then [] else [c]
+    | r => c :: r
 
 end Cppcms.C16.Spec
